@@ -72,6 +72,20 @@ theorem C15_violated_retract_blank_line_dropped :
   decide +kernel
 
 
+
+/-- Observation O5 (why the well-formedness hypothesis `Edit.WellFormedKeys` of `typed_eq_tree` / `refines_abs_typed`
+    is necessary): a strict parse accepts a directive with an EMPTY key (`require "" v1.0.0`; likewise `tool ""`,
+    `godebug =x`, `exclude "" v…`, `replace "" => …`, go.work `use ""`), and Cleanup — which recognises cleared
+    placeholders by their empty key — drops the typed entry while the line stays in the tree.  Such files are not
+    well-formed in the sense of the property (paths are non-empty); this is not a finding. -/
+theorem empty_key_dropped_by_cleanup_observation :
+    Edit.outcomeIs (Edit.sessionMod (B "module m\nrequire \"\" v1.0.0\n") [])
+      (fun o => o.start.require == [⟨[], B "v1.0.0", false⟩] && o.typed.require == [] &&
+                (o.reparsed.map (·.require)) == some [⟨[], B "v1.0.0", false⟩]) = true ∧
+    Edit.outcomeIs (Edit.sessionWork (B "go 1.21\nuse \"\"\n") [])
+      (fun o => o.start.use == [[]] && o.typed.use == [] && (o.reparsed.map (·.use)) == some [[]]) = true := by
+  constructor <;> decide +kernel
+
 /-- **No cleared placeholder entries after Cleanup** (model of File.Cleanup / WorkFile.Cleanup): every typed
     list of the cleaned file holds only live entries.  (This is the clause F2/F3 violated before the fixes:
     the model's `cleanup` compacts `tool`, `workCleanup` compacts `godebug`.) -/
